@@ -258,7 +258,7 @@ pub fn judge_real(
         let n = ok_set.len();
         if exit == Some(0) {
             let want = if n == 0 { "n2: no work to do".to_string() } else { format!("n2: ran {} task{}, now up to date", n, if n == 1 { "" } else { "s" }) };
-            if last != want && !inv.adopt {
+            if !summary_ok(&last, n) && !inv.adopt {
                 rep.violation("summary-line", &format!("last line {:?}, expected {:?} ({} commands completed successfully)", last, want, n), mk());
             }
             if inv.adopt && (last != "n2: no work to do" || !started.is_empty()) {
